@@ -145,3 +145,28 @@ func vh_C09_cacheVerifier() {
 	want := ed25519.VerifPredicateDefault(pk, msg, sig)
 	verif.Assert(got == want, "cached verification (hit or miss) = plain verification")
 }
+
+// Verifier.Add* never loses an entry: a key that cannot even be expanded still occupies its position in the
+// batch (and makes it fail), exactly as with the plain BatchVerifier.
+//
+//verif:ob prop=C09,C19 name=cache_Verifier_Add_keeps_malformed_entries mode=bv tags=purego use=gapi split=nk:0+31..33;which:0..1
+func vh_C09_cacheAdd() {
+	nk := verif.Case("nk")
+	pk := make([]byte, nk)
+	verif.AnyBytes("pk", pk)
+	sig := make([]byte, 64)
+	verif.AnyBytes("sig", sig)
+	msg := make([]byte, 1)
+	verif.AnyBytes("msg", msg)
+	v := NewVerifier(&symCache{hit: verif.AnyBool("hit")})
+	bv := ed25519.NewBatchVerifier()
+	if verif.Case("which") == 0 {
+		v.Add(bv, pk, msg, sig)
+	} else {
+		v.AddWithOptions(bv, pk, msg, sig, &ed25519.Options{Verify: ed25519.VerifyOptionsStdLib})
+	}
+	verif.Assert(ed25519.VerifBatchLen(bv) == 1, "the entry is in the batch")
+	if nk != 32 || !curve.GDecodes(pk) {
+		verif.Assert(ed25519.VerifBatchAnyInvalid(bv), "an entry whose key cannot be expanded is recorded as invalid")
+	}
+}
